@@ -3,13 +3,13 @@
 import json, os, sys
 V = os.path.dirname(os.path.dirname(os.path.abspath(__file__)))
 sys.path.insert(0, V)
-from props import PROPS, NOT_APPLICABLE, HOOK_COMMITS
+from props import PROPS, NOT_APPLICABLE, HOOK_COMMITS, CLAIMED
 
 ids = [json.loads(l)["id"] for l in open(os.path.join(V, "properties.jsonl"))]
 engines = {}
 checks = []
 for pid in ids:
-    if pid not in PROPS:
+    if pid not in PROPS or pid not in CLAIMED:
         continue
     s = PROPS[pid]
     engines.setdefault(s["engine"], []).append(pid)
@@ -24,7 +24,7 @@ for pid in ids:
         "level_note": s["note"],
         "technique": s["technique"],
     })
-na = [{"property_id": p, "reason": NOT_APPLICABLE.get(p, "check not built yet in this round; not claimed")} for p in ids if p not in PROPS]
+na = [{"property_id": p, "reason": NOT_APPLICABLE.get(p, "check not built yet in this round; not claimed")} for p in ids if p not in PROPS or p not in CLAIMED]
 m = {
     "version": 1,
     "setup_cmd": "./setup.sh",
